@@ -375,11 +375,9 @@ func (l *NDNLPLinkService) handleIncomingFrame(frame []byte) {
 			copy(pkt.PitToken, LP.PitToken)
 		}
 
-		// Copy fragment to wire buffer
-		wire = wire[:0]
-		for _, b := range fragment {
-			wire = append(wire, b...)
-		}
+		// Join the fragment(s). A reassembled packet gets a buffer of its own: the
+		// fragment that arrived last still lives in wire, so wire cannot be the target.
+		wire = fragment.Join()
 
 		// Parse inner packet in place
 		L3, _, err := spec.ReadPacket(enc.NewBufferReader(wire))
